@@ -3,6 +3,8 @@
 //! against the specifications in /verif/spec.
 mod comp;
 mod gen;
+mod infl;
+mod scn_dec;
 mod tr;
 
 use comp::*;
@@ -192,6 +194,13 @@ fn main() {
         "configs_c10" => scn_configs(&o, &mut tr, "C10"),
         "configs_c11" => scn_configs(&o, &mut tr, "C11"),
         "configs_c09" => scn_configs(&o, &mut tr, "C09"),
+        "entrypoints" => scn_dec::scn_entrypoints(&o, &mut tr, "C03"),
+        "trailing" => scn_dec::scn_trailing(&o, &mut tr, "C06"),
+        "schedules" => scn_dec::scn_schedules(&o, &mut tr, "C07"),
+        "invalid" => scn_dec::scn_invalid(&o, &mut tr, "C04"),
+        "total" => scn_dec::scn_total(&o, &mut tr, "C05"),
+        "window" => scn_dec::scn_window(&o, &mut tr, "C08"),
+        "inflate_protocol" => scn_dec::scn_inflate_protocol(&o, &mut tr, "C13"),
         _ => {
             eprintln!("unknown scenario {}", name);
             std::process::exit(2);
